@@ -149,7 +149,8 @@ func (o *OracleC03) AfterBlock(c *Chain, b *BlockCtx) []*Violation {
 				}
 			}
 		case "transfer":
-			if ev.From == mintMod && ev.TxIdx < 0 {
+			// InputOutputCoins (multi-send) emits transfer events without a sender attribute
+			if (ev.From == mintMod || ev.From == "") && ev.TxIdx < 0 && ev.Mode == "BeginBlock" {
 				if ev.To == tbr {
 					toTBR = toTBR.Add(ev.Amount)
 				} else if ev.To == feeColl {
